@@ -438,7 +438,9 @@ PAR_PROGS = ['yy: int = cc\n(zz): int\nq.r: int = 1\n', 'a = b, c\nfor i, j in k
              'é = ü + "ö" * z\n(é): ü = 1\n',
              # parentheses glued to keywords / names on either side (removing them must leave a blank), several layers, line breaks inside
              'for a,(b)in c: pass\nfor d,((e))in f: pass\nfor g,(h\n )in i: pass\n', 'def f():\n    return(a)if b else c\ndef g():\n    return((a))if(b)else(c)\n', 'x = (a)and(b)or(c)\ny = p if(q)and(r.s)else t\n',
-             'x = [i for i in(j)if(k)]\ny = not(a)\nz = a if(b\n)else c\n', 'x = lambda:(a)if(b)else(c)\nwith(a)as b: pass\nassert(a),(b)\n', 'x = 1 if(a)else 2\ny = a is(b)\nz = a in(b)or(c)not in(d)\n']
+             'x = [i for i in(j)if(k)]\ny = not(a)\nz = a if(b\n)else c\n', 'x = lambda:(a)if(b)else(c)\nwith(a)as b: pass\nassert(a),(b)\n', 'x = 1 if(a)else 2\ny = a is(b)\nz = a in(b)or(c)not in(d)\n',
+             # a value directly followed by its format specification / conversion / debug text (the specification node starts exactly where the value ends)
+             "x = f'{a,b:x} {c,:{w}} {d,e!r:>4} {g,h=:x}'\ny = f'{(a,b):x}{i:{j,k}}'\n"]
 
 
 def stage_par_unpar(ctx: Ctx):
